@@ -37,6 +37,9 @@ def run(repo, run, tier):
     # a located crossing is recorded only if it passes the in-step test: the test must be the mirrored pair selected by the sign of THIS step
     from .c07 import in_step_test
     in_step_test(repo, run, m, rule_id="C08.9")
+    # 'however many events are monitored': the duplicate test of one event reads only that event's own latest record
+    from .c07 import index_sorts
+    index_sorts(repo, run, m, rule_id="C08.10")
 
 
 def pruning(repo, run, m):
